@@ -55,10 +55,48 @@ func convertValueToInt(value any, typ reflect.Type) (int64, error) {
 	return 0, conversionError("", value, typ)
 }
 
+// spellsDecimal reports whether s is an optional sign, digits with an optional decimal point (at
+// least one digit) and an optional exponent.
+func spellsDecimal(s string) bool {
+	i, n := 0, len(s)
+	if i < n && (s[i] == '+' || s[i] == '-') {
+		i++
+	}
+	digits := 0
+	for ; i < n && '0' <= s[i] && s[i] <= '9'; i++ {
+		digits++
+	}
+	if i < n && s[i] == '.' {
+		for i++; i < n && '0' <= s[i] && s[i] <= '9'; i++ {
+			digits++
+		}
+	}
+	if digits == 0 {
+		return false
+	}
+	if i < n && (s[i] == 'e' || s[i] == 'E') {
+		i++
+		if i < n && (s[i] == '+' || s[i] == '-') {
+			i++
+		}
+		start := i
+		for ; i < n && '0' <= s[i] && s[i] <= '9'; i++ {
+		}
+		if i == start {
+			return false
+		}
+	}
+	return i == n
+}
+
 func convertValueToFloat(value any, typ reflect.Type) (float64, error) {
 	switch value := value.(type) {
 	// case int is handled by rv.Convert(typ) in Convert function
 	case string:
+		// a number is spelled in decimal: not "inf", "nan", "0x1p4" or "1_000", which ParseFloat accepts
+		if !spellsDecimal(value) {
+			return 0, conversionError("", value, typ)
+		}
 		v, err := strconv.ParseFloat(value, 64)
 		if err != nil {
 			return 0, conversionError("", value, typ)
